@@ -415,9 +415,88 @@ class Executor(ExprMixin, CallMixin):
     def s_If(self, s, st):
         outs = []
         for (s2, v) in self.ev(s.test, st):
-            for (s3, b) in self.fork_truth(s2, v):
+            base_len = len(s2.pc)
+            branches = self.fork_truth(s2, v)
+            if len(branches) == 2 and self._simple_branch(s.body) and self._simple_branch(s.orelse):
+                # if-conversion: both arms are straight-line assignments -> one merged state
+                (sa, ba), (sb, bb) = branches
+                cond = sa.pc[base_len]
+                mark = len(self.sinks[-1])
+                oa = self.exec_block(s.body if ba else s.orelse, sa)
+                ob = self.exec_block(s.body if bb else s.orelse, sb)
+                if len(oa) == 1 and len(ob) == 1 and oa[0].kind == "fall" and ob[0].kind == "fall" \
+                        and len(self.sinks[-1]) == mark \
+                        and len(oa[0].st.pc) == base_len + 1 and len(ob[0].st.pc) == base_len + 1:
+                    m = self.ite_states(cond, oa[0].st, ob[0].st, base_len)
+                    if m is not None:
+                        outs.append(Outcome("fall", m))
+                        continue
+                outs.extend(oa + ob)
+                continue
+            for (s3, b) in branches:
                 outs.extend(self.exec_block(s.body if b else s.orelse, s3))
         return self.maybe_merge(outs)
+
+    def _simple_branch(self, stmts) -> bool:
+        for n in stmts:
+            if not isinstance(n, (ast.Assign, ast.AugAssign, ast.AnnAssign, ast.Pass, ast.Expr)):
+                return False
+            if isinstance(n, ast.Expr) and not self.is_logger_call(n.value) and not isinstance(n.value, ast.Constant):
+                return False
+            for sub in ast.walk(n):
+                if isinstance(sub, (ast.Yield, ast.YieldFrom, ast.Await, ast.NamedExpr)):
+                    return False
+        return True
+
+    def ite_states(self, cond, a: State, b: State, base_len):
+        """State equal to `a` when cond else `b` (exact, not an over-approximation);
+        None when some differing value cannot be merged with If."""
+        m = a.fork()
+        m.pc = list(a.pc[:base_len])
+        if len(a.frames) != len(b.frames):
+            return None
+        for fa, fb, fm in zip(a.frames, b.frames, m.frames):
+            if fa.env.keys() != fb.env.keys():
+                return None
+            for k in fa.env:
+                va, vb = fa.env[k], fb.env[k]
+                if va is vb:
+                    continue
+                if isinstance(va, VRef) and isinstance(vb, VRef) and va.ref == vb.ref:
+                    continue
+                mv = ops.same_shape_ite(cond, va, vb)
+                if mv is None:
+                    return None
+                fm.env[k] = mv
+        if a.heap.keys() != b.heap.keys():
+            return None
+        for r in a.heap:
+            oa, ob = a.heap[r], b.heap[r]
+            if oa is ob:
+                continue
+            if oa.kind != ob.kind or oa.kind not in ("list", "bytearray", "obj", "dict") or oa.data is None or ob.data is None:
+                return None
+            if isinstance(oa.data, list):
+                if len(oa.data) != len(ob.data):
+                    return None
+                items = [x if x is y else ops.same_shape_ite(cond, x, y) for x, y in zip(oa.data, ob.data)]
+                if any(i is None for i in items):
+                    return None
+                m.heap[r] = HeapObj(oa.kind, items, oa.cls, oa.fresh)
+            else:
+                if oa.data.keys() != ob.data.keys():
+                    return None
+                d = {}
+                for k in oa.data:
+                    x, y = oa.data[k], ob.data[k]
+                    mv = x if x is y else (x if isinstance(x, VRef) and isinstance(y, VRef) and x.ref == y.ref else ops.same_shape_ite(cond, x, y))
+                    if mv is None:
+                        return None
+                    d[k] = mv
+                m.heap[r] = HeapObj(oa.kind, d, oa.cls, oa.fresh)
+        if a.ghost != b.ghost or len(a.yielded) != len(b.yielded):
+            return None
+        return m
 
     def maybe_merge(self, outs):
         if not self.merge:
